@@ -512,6 +512,9 @@ def rule_read(ctx):
     ctx.check(ok, "C03.READ", fs.short, "from_string = from_xml(fromstring(text))", "from_string does not parse its whole argument and hand the element to from_xml", fi=fs, text="from_string")
 
 
+# 'the same attributes': a constructor that drops an argument under some condition breaks the round trip
+IMPORTS = [('C20', 'C20.CTOR')]
+
 RULES = [
     ("C03.REG", rule_reg, "every emit-able message class is registered with the parser; tags unique; same tag function on both sides"),
     ("C03.SYM", rule_sym, "every instance attribute is fed by the same-named constructor parameter (so it survives the re-parse); attribute set is path-independent"),
